@@ -185,7 +185,13 @@ func init() {
 			Oracle: drv.Oracle{World: true, Typed: true, Family: relFamily(), Filters: true, Lock: true},
 			Preludes: append(relPreludes(model.PathMapN), append(append([]model.Op{}, relPreludes(model.PathMapN)[2]...),
 				model.Op{K: model.OpReset}, model.Op{K: model.OpShrink},
-				model.Op{K: model.OpNew, Path: model.PathMapN, Cs: ct.Of(ct.P)}, model.Op{K: model.OpNew, Path: model.PathMapN, Cs: ct.Of(ct.P)})),
+				model.Op{K: model.OpNew, Path: model.PathMapN, Cs: ct.Of(ct.P)}, model.Op{K: model.OpNew, Path: model.PathMapN, Cs: ct.Of(ct.P)}),
+				// a table of an archetype with TWO relation components, seen by a registered filter; its entity can be
+				// removed (targets stay alive), the table freed by Shrink and recycled
+				[]model.Op{{K: model.OpNew, Path: model.PathMapN, Cs: ct.Of(ct.P)}, {K: model.OpNew, Path: model.PathMapN, Cs: ct.Of(ct.P)}, {K: model.OpNew, Path: model.PathMapN, Cs: ct.Of(ct.P)},
+					{K: model.OpNew, Path: model.PathMapN, Cs: ct.Of(ct.R1, ct.R2), T: []model.RelT{{C: ct.R1, T: 0}, {C: ct.R2, T: 1}}},
+					{K: model.OpNew, Path: model.PathMapN, Cs: ct.Of(ct.R1, ct.R2), T: []model.RelT{{C: ct.R1, T: 1}, {C: ct.R2, T: 1}}},
+					{K: model.OpRegister, F: 0}}),
 			Alphabet: concat(relAlphabet(relOpts{path: model.PathMapN, maxAlive: 5, batch: true, two: true, nTargets: 2}), shr, qf),
 			Depth:    d, AfterOp: after,
 		})
